@@ -216,9 +216,10 @@ def templates(tier="quick"):
     for kind, kw in (("depfile", {"depfile": True}), ("gcc", {"deps": "gcc"})):
         dd = dyndep_text([("x.o", [], [], False)])
         v = Variant("v0", [Stmt("dd", ex=["dd.in"], copy=True), Stmt("r", ex=["rsrc"], restat=True),
-                           Stmt("x.o", ex=["x.c", "r"], oo=["dd"], dyndep="dd", hidden=["hdr"], **kw), Stmt("exe", ex=["x.o"])])
+                           Stmt("x.o", ex=["x.c", "r"], oo=["dd"], dyndep="dd", hidden=["hdr"], **kw), Stmt("b", ex=["b.in"]),
+                           Stmt("exe", ex=["x.o", "b"])])
         files = {"dd.in": dd}
-        ops = standard_ops([v], files, js=(2,), touch=True, rm_depfiles=True, ks=(1,), edits_during=False, with_faults=False,
+        ops = standard_ops([v], files, js=(2, 3), touch=True, rm_depfiles=True, ks=(1,), edits_during=False, with_faults=False,
                            touch_only=("dd.in",))
         bi = next(i for i, o in enumerate(ops) if o["op"] == "ninja")
         if kind == "depfile":
@@ -230,5 +231,14 @@ def templates(tier="quick"):
                           tags=["dyndep", "restat", kind, "built"]))
         T.append(scenario("dyndep_restat_lost_%s/lost" % kind, "template", [v], files=files, ops=ops, init=[bi, ri], depth=d,
                           tags=["dyndep", "restat", kind, "lost-deps"]))
+
+    # T25 dyndep information produced in the build names an input whose producer has a validation; the
+    # validation's own inputs are ready (nothing else will ever wake it up)
+    dd = dyndep_text([("out", [], ["h"], False)])
+    v = Variant("v0", [Stmt("dd", ex=["dd.in"], copy=True), Stmt("check", ex=["check.in"]), Stmt("h", ex=["h.in"], val=["check"]),
+                       Stmt("out", ex=["in"], oo=["dd"], dyndep="dd", extra_reads=["h"]), Stmt("top", ex=["out"])],
+                defaults=["top"])
+    T += _mk("dyndep_validation", [v], tags=["dyndep", "validation"], depth=d, js=(1, 3), files={"dd.in": dd},
+             max_fault_stmts=3, edits_during=False, touch_only=("dd.in",))
 
     return T
